@@ -968,6 +968,17 @@ def solve(objfun, x0, h=None, lh=None, prox_uh=None, argsf=(), argsh=(), argspro
         xl = bounds[0].astype(float) if bounds[0] is not None else None
         xu = bounds[1].astype(float) if bounds[1] is not None else None
 
+    # Check shapes now: the bounds are used below (scaling, projection onto the box) before the other input checks are reached
+    exit_info = None
+    if np.shape(x0) != (n,):
+        exit_info = ExitInformation(EXIT_INPUT_ERROR, "x0 must be a vector")
+    elif xl is not None and np.shape(xl) != (n,):
+        exit_info = ExitInformation(EXIT_INPUT_ERROR, "lower bounds must have same shape as x0")
+    elif xu is not None and np.shape(xu) != (n,):
+        exit_info = ExitInformation(EXIT_INPUT_ERROR, "upper bounds must have same shape as x0")
+    if exit_info is not None:
+        return OptimResults(None, None, None, None, 0, 0, 0, exit_info.flag, exit_info.message(with_stem=True), None, None)
+
     if (xl is None or xu is None) and scaling_within_bounds:
         scaling_within_bounds = False
         warnings.warn("Ignoring scaling_within_bounds=True for unconstrained problem/1-sided bounds", RuntimeWarning)
